@@ -249,31 +249,33 @@ impl SlabRouter {
     pub fn delete(&self, key: &str) -> Result<(), SlabRouterError> {
         self.ops_count.fetch_add(1, Ordering::Relaxed);
 
-        // Check if key exists first
-        if !self.exists(key) {
-            return Err(SlabRouterError::NotFound(key.to_string()));
-        }
-
-        match Self::classify_key(key) {
+        // "Not found" is decided by the removal itself, not by a separate `exists` check:
+        // of two concurrent deletes of one key exactly one finds (and removes) the entry.
+        let found = match Self::classify_key(key) {
             KeyClass::Embedding => {
                 if let Some(entity_id) = self.index.get(key) {
                     self.embeddings.delete(entity_id);
                 }
-                self.index.remove(key);
-                self.metadata.delete(key);
-                Ok(())
+                let in_index = self.index.remove(key).is_some();
+                let in_metadata = self.metadata.delete(key).is_some();
+                in_index || in_metadata
             },
-            KeyClass::Cache => {
-                self.cache.delete(key);
-                Ok(())
-            },
+            KeyClass::Cache => self.cache.delete(key),
             _ => {
-                // put_durable registers any key that carries an embedding in the entity
-                // index; drop that entry too, or `scan` keeps listing the deleted key.
-                self.index.remove(key);
-                self.metadata.delete(key);
-                Ok(())
+                let found = self.metadata.delete(key).is_some();
+                if found {
+                    // put_durable registers any key that carries an embedding in the entity
+                    // index; drop that entry too, or `scan` keeps listing the deleted key.
+                    self.index.remove(key);
+                }
+                found
             },
+        };
+
+        if found {
+            Ok(())
+        } else {
+            Err(SlabRouterError::NotFound(key.to_string()))
         }
     }
 
